@@ -7,4 +7,4 @@ export CARGO_NET_OFFLINE=true
 mkdir -p work replays evidence
 [ -f harness/Cargo.lock ] || cp /repo/Cargo.lock harness/Cargo.lock
 (cd lean && lake build LruMem lrudriver)
-(cd harness && (cargo build --release --offline || cargo build --release --offline --no-default-features))
+(cd harness && (cargo build --release --offline || cargo build --release --offline --no-default-features) && (cargo build --offline || cargo build --offline --no-default-features))
